@@ -91,20 +91,32 @@ def run(repo, chk, tier, parts=("dalitz", "boost", "helicity", "frame")):
         oblige("E6-dalitz", "(p1+p2)^2 == m12", M2(p1 + p2), m12, W, "m12")
         oblige("E6-dalitz", "(p2+p3)^2 == m23", M2(p2 + p3), m23, W, "m23")
         oblige("E6-dalitz", "(p1+p3)^2 == m0^2+m1^2+m2^2+m3^2-m12-m23", M2(p1 + p3), m0 ** 2 + m1 ** 2 + m2 ** 2 + m3 ** 2 - m12 - m23, W, "m13")
-        # the class wrapper passes its masses in the declared order
-        d = repo.fn("tf_pwa/data_trans/dalitz.py::Dalitz.generate_p")
-        import ast
+        # the class wrapper passes its masses in the declared order: Dalitz(m0, m1, m2, m3).generate_p(m12, m23)
+        # interpreted with the kernel replaced by a recorder of its bound arguments
+        from ..sym import SelfObj
+        dcls = repo.cls("tf_pwa/data_trans/dalitz.py::Dalitz")
+        d = dcls.methods["generate_p"]
+        kern = repo.fn(DAL + "generate_p")
+        seen = []
 
-        from ..model import norm_text, walk_local
+        def rec(tr_, a_, k_, n_):
+            names = kern.all_param_names()
+            bound = dict(zip(names, a_))
+            bound.update(k_)
+            seen.append([bound.get(x) for x in names])
+            return "momenta"
 
-        r = [n for n in walk_local(d.node) if isinstance(n, ast.Return)][0]
-        ok = norm_text(r.value) == "generate_p(m12, m23, self.m0, *self.mi)"
-        init = repo.fn("tf_pwa/data_trans/dalitz.py::Dalitz.__init__")
-        mi = [norm_text(n.value) for n in walk_local(init.node) if isinstance(n, ast.Assign) and norm_text(n.targets[0]) == "self.mi"]
-        ok = ok and mi == ["[m1, m2, m3]"]
-        chk.oblige("E6-dalitz", "Dalitz.generate_p forwards (m12, m23, m0, m1, m2, m3) in order", ok)
+        tr_w = Translator(repo, hooks={kern.key: rec, "allow_attr_store": True}, max_depth=2)
+        so = SelfObj(dcls, {})
+        try:
+            tr_w.call_fn(dcls.methods["__init__"], [m0, m1, m2, m3], self_obj=so)
+            out = tr_w.call_fn(d, [m12, m23], self_obj=so)
+        except Unmodelled as e:
+            raise AnalysisError("Dalitz.__init__ / generate_p cannot be interpreted: %s" % e)
+        ok = out == "momenta" and seen == [[m12, m23, m0, m1, m2, m3]]
+        chk.oblige("E6-dalitz", "Dalitz(m0, m1, m2, m3).generate_p(m12, m23) calls the kernel with (m12, m23, m0, m1, m2, m3)", ok)
         if not ok:
-            chk.violation("E6-dalitz", d.key, "forward", "Dalitz.generate_p no longer forwards m12, m23, m0, [m1, m2, m3] in the kernel's order: %s / %s" % (norm_text(r.value), mi), file="tf_pwa/data_trans/dalitz.py", line=d.lineno)
+            chk.violation("E6-dalitz", d.key, "forward", "Dalitz(m0, m1, m2, m3).generate_p(m12, m23) reaches the kernel with %s instead of (m12, m23, m0, m1, m2, m3)" % (seen,), file="tf_pwa/data_trans/dalitz.py", line=d.lineno)
 
     if "boost" in parts:
         # ---- (b) boosts
